@@ -293,10 +293,17 @@ func (c11) Check(c *core.Case, env *core.Env, res zzsim.Result, v *core.Verdict)
 	// probe: the reply was read by the client's endpoint before Send returned
 	conns := env.NW.Conns()
 	if len(conns) > 0 {
-		sent, marks := conns[0].Sent()
+		sent, _ := conns[0].Sent()
 		frames, _, _ := ref.ParseStream(sent)
-		_ = marks
 		env.ProbeN("client-frames", len(frames))
+		early := EarlyReplies(conns[0])
+		env.ProbeN("reply-read-before-send-returned", early)
+		// "a reply that arrives before the send operation has even returned
+		// is still delivered to its caller": with no fault every call succeeded
+		// (checked above), so the early ones were delivered
+		if early > 0 && fired == 0 {
+			env.ProbeN("early-reply-delivered", early)
+		}
 	}
 	v.Nontrivial = fired > 0 || c.P("fault_op", 0) < 0
 	if v.Nontrivial {
